@@ -583,8 +583,14 @@ impl RADAU {
                             hhfac = 0.8 * qnewt.powf(exponent);
                             h *= hhfac;
                             steps.rejected += 1;
+                            // Convergence is predicted to be too slow: abandon this attempt and
+                            // restart the step with the reduced size (RADAU5: REJECT=.TRUE.,
+                            // LAST=.FALSE., GOTO 10/20). Falling through to the error estimate
+                            // would use the last Newton increment as if it were the stage values.
+                            reject = true;
                             last = false;
-                            break 'newton;
+                            call_decomp = true;
+                            continue 'main;
                         }
                     } else {
                         // Unexpected step rejection - continue with reduced step
